@@ -8,7 +8,7 @@ from pw_verif.props._machine import run_program_case, worker_init  # noqa: F401
 
 PROP = "C10"
 LEVEL = "exploration"
-BUDGET = {"quick": 640, "thorough": 8000}
+BUDGET = {"quick": 960, "thorough": 10000}
 MIN_PER_SHARD = 10
 RULE = (
     "Worlds/layouts/states as in C01 (Fock modes alone, in combined envelopes and in composite product spaces, "
